@@ -50,7 +50,7 @@ def run_c08(tier, seed):
     v.assumptions += ["'exactly once' is decided at quiescence: all clients gone, accepted descriptors released and /proc/self/fd back at the idle baseline within a bounded, load-scaled wait",
                       "accept4/close are interposed at link time to own the set of accepted descriptors; the HTTP endpoint path observes onRequest/onDisconnection only (Http::Handler::onConnection is private)"]
     return _finish(v, work, counters, distinct, samples, stats,
-                   "rounds of 1-24 concurrent scripted clients against a raw Tcp::Listener (own Tcp::Handler, spy transport exposing the peer table) or an Http::Endpoint (1 s idle time-outs): connect/close, partial request then close, full exchange, half-close then read to EOF, RST, RST with a 4 MiB response pending, silence until the idle time-out (before/after an exchange), handlers that arm timeoutAfter and answer first, keep-alive sequences. Per-peer callback automaton, accept4/close ownership, descriptor census, peer table, service afterwards. distinct = (server kind, workers, behaviour set)")
+                   "rounds of 1-24 concurrent scripted clients against a raw Tcp::Listener (own Tcp::Handler, spy transport exposing the peer table) or an Http::Endpoint (1 s idle time-outs): connect/close, partial request then close, full exchange, half-close then read to EOF, RST, RST with a 4 MiB response pending, silence until the idle time-out (before/after an exchange), handlers that arm timeoutAfter and answer first, keep-alive sequences, slow requests that keep the worker busy while bytes and FIN (or a half-close) arrive together, a streamed response (6 x 20000-byte flushed chunks) reset by the client in mid-stream, long-poll handlers that park the ResponseWriter with a 250 ms response time-out while the client leaves before it expires. Per-peer callback automaton, accept4/close ownership, descriptor census, peer table, service afterwards. distinct = (server kind, workers, behaviour set)")
 
 def run_c14(tier, seed):
     v = vlib.Verdict("C14", tier, seed, level="fault_enumeration")
@@ -125,7 +125,7 @@ def run_c15(tier, seed):
                       "a batch is judged when all promises are settled or the server has been idle for 3 s x load; every batch runs in a forked child under a 25 s x load watchdog (a wedged client is a witness)",
                       "Experimental::Client has no pipelining and cannot resume a partial send: request bodies stay below the socket buffer"]
     return _finish(v, work, counters, distinct, samples, stats,
-                   "batches of 1-64 requests issued at once through one Experimental::Client (1-4 threads, maxConnectionsPerHost 1-8, so queueing behind the limit is the norm) to a scripted server whose behaviour per request is immediate / delayed / byte-dribbled / chunked / close-after-response / never-answered (client time-out 400 ms) / answered after the client's time-out; per-promise settle counters, echoed tags, server-side request log with connection ids, peak simultaneous connections. distinct = (threads, limit, over-limit?, scenario, batch size class)")
+                   "batches of 1-64 requests issued at once - from one application thread or from 2-6 threads released together - through one Experimental::Client (1-4 threads, maxConnectionsPerHost 1-8, so queueing behind the limit is the norm); in all-answering batches 150 further stampede rounds follow in which 3-6 threads call send() at the same instant on an idle pool (requests built beforehand, spin barrier); to a scripted server whose behaviour per request is immediate / delayed / byte-dribbled / chunked / close-after-response / never-answered (client time-out 400 ms) / answered after the client's time-out; per-promise settle counters, echoed tags, server-side request log with connection ids, peak simultaneous connections. distinct = (threads, limit, over-limit?, scenario, batch size class)")
 
 def run_c02(tier, seed):
     v = vlib.Verdict("C02", tier, seed, level="exploration")
